@@ -25,3 +25,28 @@ Proof. exact ustep_phase_ok. Qed.
 
 Example C19_nonvacuous : phase_ok (UBody 255 [1; 2; 3]) /\ bitem_ok (IRaw [0; 0; 0]) /\ citem_ok (KFrame (mkCF true false 5 0 [])).
 Proof. split; [cbn; lia|]. split; [split; [cbn; lia|reflexivity]|reflexivity]. Qed.
+
+(* token level: for EVERY raw device script (arbitrary numbers read as bytes / 'no data yet' / read errors in any arrangement -
+   truncated link frames, faults inside frames; on CAN every script of driver-constructible frames, would-block answers and overrun
+   reports), after EVERY poll of the harness loop the receiver holds at most the announced frame count of one packet, itself at most
+   4096.  polls_held lists, per poll, (result, frames held, frames announced). *)
+Require Import RP.Glue.Wire RP.Glue.StreamLink RP.Lemmas.HeldTokens.
+Theorem C19_bound_tokens_usart : forall toks fuel,
+  Forall (fun e : res * N * N => let '(_, held, ann) := e in held <= ann /\ ann <= 4096) (polls_held usart fuel None (map utok_of toks)).
+Proof. exact held_tokens_usart. Qed.
+Theorem C19_bound_tokens_serial : forall toks fuel,
+  Forall (fun e : res * N * N => let '(_, held, ann) := e in held <= ann /\ ann <= 4096) (polls_held serial fuel None (map stok_of toks)).
+Proof. exact held_tokens_serial. Qed.
+Theorem C19_bound_tokens_can : forall s fuel, Forall (fun t => match t with CF c => wf_canframe c = true | _ => True end) s ->
+  Forall (fun e : res * N * N => let '(_, held, ann) := e in held <= ann /\ ann <= 4096) (polls_held can fuel None s).
+Proof. exact held_tokens_can. Qed.
+
+(* the extracted checker accepts the model's observation (heap 0: the model holds no bytes; its frame bookkeeping is what the fine clause
+   uses) of EVERY case line on USART and the serial port, and of every script of driver-constructible frames on CAN *)
+Theorem C19_checker_accepts_model_usart : forall case meta toks, rcv_split case = Some (1, meta, toks) -> ok_C19 case (run_RCV case) = [].
+Proof. exact ok_C19_usart_accepts_model. Qed.
+Theorem C19_checker_accepts_model_serial : forall case meta toks, rcv_split case = Some (2, meta, toks) -> ok_C19 case (run_RCV case) = [].
+Proof. exact ok_C19_serial_accepts_model. Qed.
+Theorem C19_checker_accepts_model_can : forall case meta toks s, rcv_split case = Some (0, meta, toks) -> ctoks_of toks = Some s ->
+  Forall (fun t => match t with CF c => wf_canframe c = true | _ => True end) s -> ok_C19 case (run_RCV case) = [].
+Proof. exact ok_C19_can_accepts_model. Qed.
